@@ -1,6 +1,7 @@
 package main
 
 import (
+	"os"
 	"fmt"
 	"go/token"
 	"go/types"
@@ -402,6 +403,14 @@ func (in *Interp) intrinsic(fr *Frame, name string, args []Value, fn *ssa.Functi
 		if s, ok := args[0].(string); ok {
 			r, err := strconv.Unquote(s)
 			return Tuple{r, errOrNil(err)}
+		}
+		// "…" or `…` around symbolic bytes: a byte that is printable ASCII and
+		// neither a quote nor a backslash stands for itself (decided per byte;
+		// the other bytes are few enough to be case-split)
+		if r, ok := args[0].(*Rope); ok {
+			if out, ok := in.unquoteRope(r); ok {
+				return out
+			}
 		}
 		panic(pathAbort{"unsupported: Unquote of a symbolic string"})
 	case "strconv.ParseFloat":
@@ -902,7 +911,7 @@ var concretizable = map[string]bool{
 	"regexp.MatchString": true, "regexp.MustCompile": true, "regexp.Compile": true,
 }
 
-const maxByteSplit = 24
+const maxByteSplit = 48
 
 // concretizeStr turns a rope of literal and symbolic bytes into a concrete
 // string by branching on each symbolic byte whose exact domain (interp.go,
@@ -933,6 +942,9 @@ func (in *Interp) concretizeStr(r *Rope) (string, bool) {
 				}
 			}
 			if len(vals) == 0 || len(vals) > maxByteSplit {
+				if os.Getenv("SYMGO_SOLVERDBG") != "" {
+					fmt.Fprintf(os.Stderr, "[concretize] %s has %d admissible values\n", c.b.name, len(vals))
+				}
 				return "", false
 			}
 			syms = append(syms, sym{c.b, vals})
@@ -962,6 +974,73 @@ func (in *Interp) concretizeStr(r *Rope) (string, bool) {
 		}
 	}
 	return sb.String(), true
+}
+
+// determinedByte: a concrete byte, or a symbolic one whose exact domain has
+// shrunk to one value (the closing quote the lexer has already matched).
+func (in *Interp) determinedByte(b Value) (int64, bool) {
+	switch x := b.(type) {
+	case int64:
+		return x, true
+	case *Term:
+		if x.op == "var" && !in.entangled[x.name] {
+			if dom := in.byteDom[x.name]; dom != nil {
+				n, v := 0, 0
+				for k := 0; k < 256; k++ {
+					if dom[k/64]&(1<<uint(k%64)) != 0 {
+						n++
+						v = k
+					}
+				}
+				if n == 1 {
+					return int64(v), true
+				}
+			}
+		}
+	}
+	return 0, false
+}
+
+// unquoteRope: strconv.Unquote of a double- or back-quoted literal whose
+// content has symbolic bytes.
+func (in *Interp) unquoteRope(r *Rope) (Value, bool) {
+	bs := strBytes(r)
+	if len(bs) < 2 {
+		return nil, false
+	}
+	q, ok := in.determinedByte(bs[0])
+	last, ok2 := in.determinedByte(bs[len(bs)-1])
+	if !ok || !ok2 || q != last || (q != '"' && q != '`') {
+		return nil, false
+	}
+	ts := in.ts
+	inner := bs[1 : len(bs)-1]
+	plain := true
+	for _, b := range inner {
+		switch x := b.(type) {
+		case int64:
+			if x == '\\' || x == q || x < 0x20 && q == '"' || x >= 0x7f {
+				plain = false
+			}
+		case *Term:
+			safe := ts.And(ts.Mk("bvuge", SBool, x, ts.BV(8, 0x20)), ts.Mk("bvule", SBool, x, ts.BV(8, 0x7e)),
+				ts.Not(ts.Eq(x, ts.BV(8, '\\'))), ts.Not(ts.Eq(x, ts.BV(8, uint64(q)))))
+			if !in.decide(safe) {
+				plain = false
+			}
+		default:
+			return nil, false
+		}
+	}
+	if plain {
+		return Tuple{ropeFromBytes(append([]Value(nil), inner...)), Iface{}}, true
+	}
+	// escapes, control or non-ASCII bytes: only with every symbolic byte narrowed to few values
+	if c, ok := in.concretizeStr(r); ok {
+		u, err := strconv.Unquote(c)
+		return Tuple{u, errOrNil(err)}, true
+	}
+	return nil, false
 }
 
 // symNeedle: a concrete haystack searched for a symbolic byte or rune.
